@@ -19,9 +19,6 @@ type propFunc func(r *Report) propMeta
 var props = map[string]propFunc{}
 
 func verifDir() string {
-	if d := os.Getenv("VERIF_DIR"); d != "" {
-		return d
-	}
 	exe, err := os.Executable()
 	if err == nil {
 		d := filepath.Dir(filepath.Dir(exe))
